@@ -186,7 +186,17 @@ func genC06CatchUp(rt *rapid.T) Case {
 		steps = append(steps, Step{K: KActor, A: AToggleFetch})
 	}
 	steps = append(steps, Step{K: KPartition, A: pow(r)}) // r alone in group 1
-	burst(rapid.IntRange(2, 10).Draw(rt, "apart"))
+	apart := rapid.IntRange(2, 10).Draw(rt, "apart")
+	if rapid.IntRange(0, 2).Draw(rt, "ambiguous") == 0 {
+		// one of the blocks the replica misses has a second reading (see AProposeAmbiguous); whoever fetches it from the
+		// leader gets that one
+		k := rapid.IntRange(0, apart-1).Draw(rt, "ambiguous-at")
+		burst(k)
+		steps = append(steps, Step{K: KActor, A: AProposeAmbiguous, B: rapid.IntRange(0, 9).Draw(rt, "amb-b"), C: rapid.IntRange(0, 1).Draw(rt, "amb-c")})
+		burst(apart - k)
+	} else {
+		burst(apart)
+	}
 	steps = append(steps, Step{K: KDropCross})
 	// the proposals made from here on stay in flight towards r: they are all it gets to see of what it missed
 	burst(rapid.IntRange(0, 2).Draw(rt, "tail"))
